@@ -1,7 +1,7 @@
 /* C19 harness: drives aws_date_time formatting / parsing / accessors / epoch views through an op
  * file.  Run with TZ=UTC.  Ops (optional leading token "w": print every line of the op as class W):
  *   fmt <secs> <rfc822|iso8601|iso8601_basic|auto> <full|short> [cap]
- *   parse <hex text> <rfc822|iso8601|iso8601_basic|auto>
+ *   parse <hex text> <rfc822|iso8601|iso8601_basic|auto>     (on success: fields, W zone line, epoch views)
  *   rt <secs> <fmt> <full|short> <parse fmt>
  *   acc <secs> <ms>        aws_date_time_init_epoch_secs(secs + ms/1000.0)
  *   millis <u64>           aws_date_time_init_epoch_millis
@@ -96,6 +96,7 @@ static void s_do_parse(const uint8_t *text, size_t len, int fmt) {
         printf("W utc=%d tz=", dt.utc_assumed ? 1 : 0);
         hc_put_hex((const uint8_t *)dt.tz, tzl);
         printf("\n");
+        s_views(&dt); /* epoch views of the parsed instant */
     }
     free(copy);
 }
